@@ -59,7 +59,8 @@ Palette == <<
   {"char"},                            \* 38 a numeric character outside ASCII (arabic-indic digit four)
   {"num", "int", "exact", "index"},    \* 39 2 (a small count, a valid radix)
   {"num", "int", "exact", "index"},    \* 40 16 (a valid radix)
-  {"num", "int", "exact"}              \* 41 -1 left in bignum representation: (- (- (expt 2 64) (expt 2 64)) 1)
+  {"num", "int", "exact"},             \* 41 -1 left in bignum representation: (- (- (expt 2 64) (expt 2 64)) 1)
+  {"str"}                              \* 42 an ASCII string of length 2 (with 2 and 0 of the palette: an index equal to the length)
 >>
 NPal == Len(Palette)
 
@@ -183,9 +184,10 @@ NP == Len(Names)
 CONSTANTS MinArity, MaxArity, Stride, Offset,
           Reduced      \* TRUE: arguments from the reduced palette below, all tuples, procedures taking >= 3 arguments
 
-\* reduced palette: a list, a vector, a string, a character, 0, 2, -1 -- the same object may occupy several
-\* positions (aliasing between arguments)
-RPal == <<2, 7, 10, 11, 13, 14, 31>>
+\* reduced palette: a list, a vector, the empty / a non-ASCII / an ASCII string, a character, 0, -1, 100000, 2 -- the
+\* same object may occupy several positions (aliasing between arguments), and 0 and 2 are exactly the lengths of two
+\* of the strings (an index one past the end)
+RPal == <<2, 7, 9, 10, 11, 13, 14, 31, 39, 42>>
 NR == Len(RPal)
 
 Mod(a, b) == a - b * (a \div b)
